@@ -113,13 +113,33 @@ def to_span(x: ToSpan) -> Span:
     assert file is not None
     assert line_offset is not None
     # x.lineno and line_offset both start at 1, so we have to subtract 1
-    start = Loc(file, x.lineno + line_offset - 1, x.col_offset)
+    start_line = x.lineno + line_offset - 1
+    end_line = (x.end_lineno or x.lineno) + line_offset - 1
+    # The column offsets of AST nodes count UTF-8 bytes, but columns of a `Loc` count
+    # characters
+    start = Loc(file, start_line, _char_column(file, start_line, x.col_offset))
     end = Loc(
         file,
-        (x.end_lineno or x.lineno) + line_offset - 1,
-        x.end_col_offset or x.col_offset,
+        end_line,
+        _char_column(file, end_line, x.end_col_offset or x.col_offset),
     )
     return Span(start, end)
+
+
+def _char_column(file: str, line: int, byte_offset: int) -> int:
+    """Converts the UTF-8 byte offset within a source line that `ast` reports as the
+    column of a node into the number of characters preceding it.
+
+    The two only differ if the line contains non-ASCII characters. Offsets are left
+    untouched if the source line is not available.
+    """
+    text = linecache.getline(file, line)
+    if text.isascii():
+        return byte_offset
+    raw = text.encode("utf-8", errors="surrogatepass")
+    if byte_offset > len(raw):
+        return byte_offset
+    return len(raw[:byte_offset].decode("utf-8", errors="ignore"))
 
 
 #: List of source lines in a file
